@@ -314,3 +314,26 @@ def _match(pattern, key):
     if pattern.endswith("*"):
         return key.startswith(pattern[:-1])
     return pattern == key
+
+
+class TimeLimit(object):
+    """`with TimeLimit(s):` raises TimeoutError inside the block after s seconds (SIGALRM; python-level loops only) - used around
+    calls that are known to loop forever on some inputs when the implementation is wrong, so that a check reports instead of hanging"""
+
+    def __init__(self, seconds):
+        self.seconds = int(seconds)
+
+    def _raise(self, signum, frame):
+        raise TimeoutError("no result after %d s" % self.seconds)
+
+    def __enter__(self):
+        import signal
+        self._old = signal.signal(signal.SIGALRM, self._raise)
+        signal.alarm(self.seconds)
+        return self
+
+    def __exit__(self, *a):
+        import signal
+        signal.alarm(0)
+        signal.signal(signal.SIGALRM, self._old)
+        return False
